@@ -61,6 +61,40 @@ func TestReplay(t *testing.T) {
 		}
 		twins(t)
 		runLive(t, c, lc)
+	case "live-burst":
+		var bc burstCase
+		if err := json.Unmarshal(doc.Data, &bc); err != nil {
+			t.Fatalf("bad replay data: %v", err)
+		}
+		twins(t)
+		runBurst(t, c, bc)
+	case "seg-inputstream":
+		var r segReplay
+		if err := json.Unmarshal(doc.Data, &r); err != nil || r.Stream == nil {
+			t.Fatalf("bad replay data: %v", err)
+		}
+		b, _ := r.Stream.Encode()
+		var reads [][]byte
+		pos := 0
+		for _, sz := range r.Cuts { // the large socket reads
+			if pos+sz < len(b) {
+				reads = append(reads, b[pos:pos+sz])
+				pos += sz
+			}
+		}
+		for pos < len(b) {
+			sz := 1024
+			if pos+sz > len(b) {
+				sz = len(b) - pos
+			}
+			reads = append(reads, b[pos:pos+sz])
+			pos += sz
+		}
+		got, parked := serveLoop(reads)
+		want, _ := r.Stream.Expect()
+		if d := diffResults(parseResult{Msgs: want}, got); d != "" {
+			c.Fail(t, "inputstream-loses-or-reorders", fmt.Sprintf("reads %v (parked up to %d): %s", r.Cuts, parked, d), r)
+		}
 	case "live-switch":
 		var sc switchCase
 		if err := json.Unmarshal(doc.Data, &sc); err != nil {
